@@ -48,10 +48,17 @@ def body(c):
     sims = K.generate(c, "sim-8txn", sim, n, 30, c.seed, workers=4)
     for conf in (["vlog"] if q else ["default", "vlog", "l3+vlog", "enc+vlog"]):
         K.replay(c, sims, conf, c.seed, "sim-8txn")
+    # 4. managed mode: caller-chosen (also non-monotonic) commit timestamps; the conflict rule is the same
+    msim = dict(Keys="{1, 2, 3}", Txns="{1, 2, 3, 4, 5, 6}", MaxTs="6", MaxNow="1", Managed="TRUE",
+                UMs="{0}", Exps="{0}", Discs="{FALSE}", IterDirs="{FALSE}", HistLen="24",
+                EnvSteps=K.tla_set(["flush"]), MaxOps="3", MaxActive="3")
+    msims = K.generate(c, "sim-managed", msim, 1200 if q else 20000, 24, c.seed + 5, workers=4)
+    K.replay(c, msims, "managed", c.seed, "sim-managed")
+    c.cov["managed_histories"] = len(msims)
     keys |= set(K.hist_key(h) for h in sims if K.nontrivial(h, ["commit:ok"]))
     nconf += sum(1 for h in sims if K.nontrivial(h, ["commit:conflict"]))
     c.cov["histories_with_conflict"] = nconf
-    c.add_cases(len(cases) + len(sims) * (1 if q else 4), keys, traces=len(cases) + len(sims))
+    c.add_cases(len(cases) + len(sims) * (1 if q else 4) + len(msims), keys, traces=len(cases) + len(sims) + len(msims))
     c.cov["rule"] = ("histories are behaviours of BadgerKVGen (TLC exhaustive for length %s with 2 transactions, "
                      "TLC -simulate for length 30); a history is non-trivial when at least one transaction commits "
                      "writes; distinct = distinct step sequences" % gen["HistLen"])
